@@ -93,6 +93,7 @@ type Ctx struct {
 	notes     []string
 	oblCount  map[string]int
 	quiet     int // >0: do not record obligations (inside separately verified callees)
+	noSafety  bool // safety obligations of the function under verification are assumed (nosafety clause)
 	viaStack  []string
 	clk0      *Term
 	curFrame  *frame
@@ -141,6 +142,10 @@ func (c *Ctx) abstracted(what string) {
 func (c *Ctx) oblige(st *State, kind, text string, pos token.Pos, cond *Term) {
 	pc := st.pc
 	if c.quiet > 0 {
+		c.assume(pc, cond)
+		return
+	}
+	if c.noSafety && !contractKind(kind) && kind != "vacuity" {
 		c.assume(pc, cond)
 		return
 	}
